@@ -729,7 +729,11 @@ class Share:
         need_it.add(blockstart, blocklen)
 
     def _send_requests(self, desired):
-        ask = desired - self._pending - self._received.get_spans()
+        # don't ask again for bytes the server has already told us it doesn't
+        # have (a short answer): the speculative read past the end of the
+        # share would otherwise be repeated on every loop
+        ask = (desired - self._pending - self._received.get_spans()
+               - self._unavailable)
         log.msg("%s._send_requests, desired=%s, pending=%s, ask=%s" %
                 (repr(self), desired.dump(), self._pending.dump(), ask.dump()),
                 level=log.NOISY, parent=self._lp, umid="E94CVA")
